@@ -483,5 +483,6 @@ func TestPropDiff(t *testing.T)  { vt.Check(t, propDiff) }
 func TestReplay(t *testing.T) {
 	vt.Register(propRelay)
 	vt.Register(propDiff)
+	vt.Register(propClient)
 	vt.Replay(t)
 }
